@@ -102,6 +102,10 @@ thread_local! {
     static PROBE: std::cell::Cell<bool> = const { std::cell::Cell::new(false) };
 }
 
+thread_local! {
+    static OWNED_PATH: std::cell::Cell<bool> = const { std::cell::Cell::new(false) };
+}
+
 fn probing() -> bool {
     PROBE.with(|p| p.get())
 }
@@ -289,6 +293,11 @@ pub fn app<'a>(s: &'a AppSpec) -> AppBuilder<'a> {
 }
 
 pub fn unknown<'a>(s: &'a UnknownSpec) -> UnknownBuilder<'a> {
+    if OWNED_PATH.with(|o| o.get()) && !probing() {
+        // the two setters are independent: the other order (UnknownBuilder has no owned variant, so the
+        // `owned` construction path selects it)
+        return Unknown::builder(s.pt, &s.data).padding(s.padding).count(s.count);
+    }
     pr(pr(Unknown::builder(s.pt, &s.data)).count(s.count)).padding(s.padding)
 }
 
@@ -504,6 +513,13 @@ pub fn with_writer<V: Visit>(p: &PacketSpec, how: How, v: V) -> V::Out {
         }
     }
     let _reset = Reset(PROBE.with(|p| p.replace(how.probe)));
+    struct ResetOwned(bool);
+    impl Drop for ResetOwned {
+        fn drop(&mut self) {
+            OWNED_PATH.with(|p| p.set(self.0));
+        }
+    }
+    let _reset_owned = ResetOwned(OWNED_PATH.with(|p| p.replace(how.owned)));
     with_writer_inner(p, how, v)
 }
 
